@@ -5,6 +5,6 @@ CONSTANTS
   Tags = {1}
   Rev = FALSE
 VIEW ShapeView
-INVARIANTS NoPanic IsBST SizeOK Refines Balanced
+INVARIANTS NoPanic IsBST SizeOK Refines Balanced InorderAgrees
 ACTION_CONSTRAINT Emit
 CHECK_DEADLOCK FALSE
